@@ -34,6 +34,7 @@ class O2JToSM(ConvertBase):
                 dict(offset="offset", column="column", length="length"),
             )
             sm.bpms = cls.cast(o2j.bpms, SMBpmList, dict(offset="offset", bpm="bpm"))
+            sm.description = f"Level {o2js.level_name(o2j)}"
             sm.chart_type = SMMapChartTypes.get_type(o2j.stack().column.max() + 1)
 
             sms.maps = [sm]
@@ -68,6 +69,7 @@ class O2JToSM(ConvertBase):
                 dict(offset="offset", column="column", length="length"),
             )
             sm.bpms = cls.cast(o2j.bpms, SMBpmList, dict(offset="offset", bpm="bpm"))
+            sm.description = f"Level {o2js.level_name(o2j)}"
 
             sms.maps.append(sm)
 
